@@ -1,5 +1,258 @@
 import SimVerif.Model.Geom
-/-! # C08 — placeholder, theorems follow -/
+import Mathlib.Algebra.Order.Field.Basic
+import Mathlib.Analysis.Real.Sqrt
+import Mathlib.Tactic.Ring
+import Mathlib.Tactic.FieldSimp
+import Mathlib.Tactic.Linarith
+import Mathlib.Tactic.Positivity
+import Mathlib.Tactic.NormNum
+/-!
+# C08 — oriented-box intersection and IoU; the distance pre-filter is sound
+
+Part A: closed-form axis-aligned intersection / IoU laws and the too-far pre-filter, over any
+linear ordered field (`C08_toofar_sqrtfree` over `ℝ`). Part B (rigid-motion invariance of the
+Sutherland–Hodgman model, identical boxes) is in `SimVerif/Props/C08b.lean`.
+`C08_full` — "the reported area is the measure of the set intersection for arbitrary rotated pairs" —
+is NOT proved: see DESIGN.md; that clause is decided by comparison with an exact rational reference.
+-/
 namespace SimVerif.C08
-theorem C08_placeholder : True := trivial
+open SimVerif.Geom
+variable {α : Type} [Field α] [LinearOrder α] [IsStrictOrderedRing α]
+
+/-- well-formed box: positive width and height -/
+def Pos (b : BBox α) : Prop := 0 < b.width ∧ 0 < b.height
+
+omit [Field α] [IsStrictOrderedRing α] in
+theorem maxv_eq (a b : α) : maxv a b = max a b := by
+  unfold maxv
+  split_ifs with h
+  · exact (max_eq_right h.le).symm
+  · exact (max_eq_left (not_lt.mp h)).symm
+
+omit [Field α] [IsStrictOrderedRing α] in
+theorem minv_eq (a b : α) : minv a b = min a b := by
+  unfold minv
+  split_ifs with h
+  · exact (min_eq_right h.le).symm
+  · exact (min_eq_left (not_lt.mp h)).symm
+
+omit [IsStrictOrderedRing α] in
+/-- `aabbInter` in `max`/`min` form -/
+theorem aabbInter_eq (l r : BBox α) :
+    aabbInter l r =
+      if 0 < min (l.left + l.width) (r.left + r.width) - max l.left r.left ∧
+         0 < min (l.top + l.height) (r.top + r.height) - max l.top r.top then
+        (min (l.left + l.width) (r.left + r.width) - max l.left r.left) *
+        (min (l.top + l.height) (r.top + r.height) - max l.top r.top)
+      else 0 := by
+  simp only [aabbInter, maxv_eq, minv_eq]
+
+theorem C08_aabb_nonneg (l r : BBox α) : 0 ≤ aabbInter l r := by
+  rw [aabbInter_eq]
+  split_ifs with h
+  · exact (mul_pos h.1 h.2).le
+  · exact le_rfl
+
+theorem C08_aabb_le_area (l r : BBox α) (hl : Pos l) (hr : Pos r) :
+    aabbInter l r ≤ l.width * l.height ∧ aabbInter l r ≤ r.width * r.height := by
+  obtain ⟨hlw, hlh⟩ := hl
+  obtain ⟨hrw, hrh⟩ := hr
+  rw [aabbInter_eq]
+  split_ifs with h
+  · obtain ⟨hw, hh⟩ := h
+    have w1 : min (l.left + l.width) (r.left + r.width) - max l.left r.left ≤ l.width := by
+      have := min_le_left (l.left + l.width) (r.left + r.width)
+      have := le_max_left l.left r.left
+      linarith
+    have w2 : min (l.left + l.width) (r.left + r.width) - max l.left r.left ≤ r.width := by
+      have := min_le_right (l.left + l.width) (r.left + r.width)
+      have := le_max_right l.left r.left
+      linarith
+    have h1 : min (l.top + l.height) (r.top + r.height) - max l.top r.top ≤ l.height := by
+      have := min_le_left (l.top + l.height) (r.top + r.height)
+      have := le_max_left l.top r.top
+      linarith
+    have h2 : min (l.top + l.height) (r.top + r.height) - max l.top r.top ≤ r.height := by
+      have := min_le_right (l.top + l.height) (r.top + r.height)
+      have := le_max_right l.top r.top
+      linarith
+    exact ⟨mul_le_mul w1 h1 hh.le hlw.le, mul_le_mul w2 h2 hh.le hrw.le⟩
+  · exact ⟨(mul_pos hlw hlh).le, (mul_pos hrw hrh).le⟩
+
+omit [IsStrictOrderedRing α] in
+theorem C08_aabb_symm (l r : BBox α) : aabbInter l r = aabbInter r l := by
+  rw [aabbInter_eq, aabbInter_eq, max_comm l.left, max_comm l.top,
+    min_comm (l.left + l.width), min_comm (l.top + l.height)]
+
+/-- the intersection is 0 exactly when the open interiors are disjoint -/
+theorem C08_aabb_zero_iff (l r : BBox α) :
+    aabbInter l r = 0 ↔
+      ¬ (max l.left r.left < min (l.left + l.width) (r.left + r.width) ∧
+         max l.top r.top < min (l.top + l.height) (r.top + r.height)) := by
+  rw [aabbInter_eq]
+  simp only [sub_pos]
+  split_ifs with h
+  · constructor
+    · intro h0
+      exact absurd h0 (mul_pos (sub_pos.mpr h.1) (sub_pos.mpr h.2)).ne'
+    · intro hn
+      exact absurd h hn
+  · exact ⟨fun _ => h, fun _ => rfl⟩
+
+theorem C08_aabb_identical (b : BBox α) (hb : Pos b) :
+    aabbInter b b = b.width * b.height ∧ aabbIou b b = 1 := by
+  obtain ⟨hw, hh⟩ := hb
+  have hi : aabbInter b b = b.width * b.height := by
+    rw [aabbInter_eq]
+    simp only [max_self, min_self, add_sub_cancel_left]
+    rw [if_pos ⟨hw, hh⟩]
+  refine ⟨hi, ?_⟩
+  unfold aabbIou
+  simp only [hi]
+  have : b.height * b.width + b.height * b.width - b.width * b.height = b.width * b.height := by
+    ring
+  rw [this]
+  exact div_self (mul_pos hw hh).ne'
+
+theorem C08_aabb_iou_range (l r : BBox α) (hl : Pos l) (hr : Pos r) :
+    0 ≤ aabbIou l r ∧ aabbIou l r ≤ 1 := by
+  obtain ⟨h1, h2⟩ := C08_aabb_le_area l r hl hr
+  have h0 := C08_aabb_nonneg l r
+  have hA : 0 < l.width * l.height := mul_pos hl.1 hl.2
+  unfold aabbIou
+  simp only
+  have hden : 0 < l.height * l.width + r.height * r.width - aabbInter l r := by
+    nlinarith
+  constructor
+  · exact div_nonneg h0 hden.le
+  · rw [div_le_one hden]
+    nlinarith
+
+omit [IsStrictOrderedRing α] in
+theorem C08_aabb_iou_symm (l r : BBox α) : aabbIou l r = aabbIou r l := by
+  unfold aabbIou
+  simp only
+  rw [C08_aabb_symm l r, add_comm (l.height * l.width)]
+
+def shift (dx dy : α) (b : BBox α) : BBox α := { b with left := b.left + dx, top := b.top + dy }
+
+theorem C08_aabb_translate (l r : BBox α) (dx dy : α) :
+    aabbInter (shift dx dy l) (shift dx dy r) = aabbInter l r := by
+  rw [aabbInter_eq, aabbInter_eq]
+  simp only [shift]
+  have e1 : l.left + dx + l.width = (l.left + l.width) + dx := by ring
+  have e2 : r.left + dx + r.width = (r.left + r.width) + dx := by ring
+  have e3 : l.top + dy + l.height = (l.top + l.height) + dy := by ring
+  have e4 : r.top + dy + r.height = (r.top + r.height) + dy := by ring
+  simp only [e1, e2, e3, e4, max_add_add_right, min_add_add_right, add_sub_add_right_eq_sub]
+
+/-- Soundness of the pre-filter over any ordered field (no square roots needed): if some point `p`
+lies within the bounding circle of both boxes (in particular any common point of the two
+rectangles), the pair is not rejected. -/
+theorem C08_toofar_sound (l r : UBox α) (px py : α)
+    (hl : (px - l.xc) * (px - l.xc) + (py - l.yc) * (py - l.yc) ≤ radiusSq l)
+    (hr : (px - r.xc) * (px - r.xc) + (py - r.yc) * (py - r.yc) ≤ radiusSq r) :
+    tooFar l r = false := by
+  unfold tooFar
+  simp only [Bool.and_eq_false_iff, decide_eq_false_iff_not]
+  generalize radiusSq l = A at *
+  generalize radiusSq r = B at *
+  by_contra hcon
+  rw [not_or, not_not, not_not] at hcon
+  obtain ⟨he, h4⟩ := hcon
+  -- u = p - centre_l, v = p - centre_r
+  set ux := px - l.xc with hux
+  set uy := py - l.yc with huy
+  set vx := px - r.xc with hvx
+  set vy := py - r.yc with hvy
+  have hx : l.xc - r.xc = vx - ux := by rw [hux, hvx]; ring
+  have hy : l.yc - r.yc = vy - uy := by rw [huy, hvy]; ring
+  rw [hx, hy] at he h4
+  have hU : 0 ≤ ux * ux + uy * uy := add_nonneg (mul_self_nonneg _) (mul_self_nonneg _)
+  have hV : 0 ≤ vx * vx + vy * vy := add_nonneg (mul_self_nonneg _) (mul_self_nonneg _)
+  have hA : 0 ≤ A := hU.trans hl
+  have hB : 0 ≤ B := hV.trans hr
+  set e := (vx - ux) * (vx - ux) + (vy - uy) * (vy - uy) - A - B with he_def
+  set t := -(two * (ux * vx + uy * vy)) with ht
+  have het : e ≤ t := by
+    have : e = (ux * ux + uy * uy - A) + (vx * vx + vy * vy - B) + t := by
+      rw [he_def, ht]; unfold two; ring
+    linarith
+  have hee : e * e ≤ t * t := mul_le_mul het het he.le (he.le.trans het)
+  have hcs : t * t ≤ two * two * ((ux * ux + uy * uy) * (vx * vx + vy * vy)) := by
+    have : two * two * ((ux * ux + uy * uy) * (vx * vx + vy * vy)) - t * t
+        = two * two * ((ux * vy - uy * vx) * (ux * vy - uy * vx)) := by
+      rw [ht]; ring
+    have h22 : (0 : α) ≤ two * two := mul_self_nonneg _
+    have := mul_nonneg h22 (mul_self_nonneg (ux * vy - uy * vx))
+    linarith
+  have hAB : (ux * ux + uy * uy) * (vx * vx + vy * vy) ≤ A * B :=
+    mul_le_mul hl hr hV hA
+  have h22 : (0 : α) ≤ two * two := mul_self_nonneg _
+  have := mul_le_mul_of_nonneg_left hAB h22
+  have h5 : two * two * A * B = two * two * (A * B) := by ring
+  linarith
+
+theorem radiusSq_nonneg (u : UBox α) : 0 ≤ radiusSq u := by
+  unfold radiusSq
+  exact add_nonneg (mul_self_nonneg _) (mul_self_nonneg _)
+
+/-- every point of the (rotated) rectangle lies within the bounding circle:
+`centre + R(x, y)` with `|x| ≤ w/2`, `|y| ≤ h/2`, `c² + s² = 1` -/
+theorem C08_rect_in_circle (u : UBox α) (c s x y : α) (hcs : c * c + s * s = 1)
+    (hx : |x| ≤ u.aspect * u.height / two) (hy : |y| ≤ u.height / two) :
+    let px := u.xc + (c * x - s * y)
+    let py := u.yc + (s * x + c * y)
+    (px - u.xc) * (px - u.xc) + (py - u.yc) * (py - u.yc) ≤ radiusSq u := by
+  intro px py
+  unfold radiusSq
+  simp only [px, py]
+  generalize u.aspect * u.height / two = hw at *
+  generalize u.height / two = hh at *
+  have hxx : x * x ≤ hw * hw := by
+    rw [← abs_mul_abs_self x]
+    exact mul_le_mul hx hx (abs_nonneg _) ((abs_nonneg _).trans hx)
+  have hyy : y * y ≤ hh * hh := by
+    rw [← abs_mul_abs_self y]
+    exact mul_le_mul hy hy (abs_nonneg _) ((abs_nonneg _).trans hy)
+  have : (u.xc + (c * x - s * y) - u.xc) * (u.xc + (c * x - s * y) - u.xc) +
+      (u.yc + (s * x + c * y) - u.yc) * (u.yc + (s * x + c * y) - u.yc)
+      = (c * c + s * s) * (x * x + y * y) := by ring
+  rw [this, hcs, one_mul]
+  exact add_le_add hxx hyy
+
+/-- over ℝ the decidable sqrt-free form is the code's test `x² + y² > (r₁ + r₂)²` with
+`rᵢ = √(radiusSq ·)` -/
+theorem C08_toofar_sqrtfree (l r : UBox ℝ) :
+    tooFar l r = true ↔
+      (l.xc - r.xc) * (l.xc - r.xc) + (l.yc - r.yc) * (l.yc - r.yc) >
+        (Real.sqrt (radiusSq l) + Real.sqrt (radiusSq r)) * (Real.sqrt (radiusSq l) + Real.sqrt (radiusSq r)) := by
+  have hA := radiusSq_nonneg l
+  have hB := radiusSq_nonneg r
+  unfold tooFar
+  simp only [Bool.and_eq_true, decide_eq_true_eq, gt_iff_lt]
+  generalize radiusSq l = A at *
+  generalize radiusSq r = B at *
+  generalize (l.xc - r.xc) * (l.xc - r.xc) + (l.yc - r.yc) * (l.yc - r.yc) = D
+  have ha := Real.sqrt_nonneg A
+  have hb := Real.sqrt_nonneg B
+  have haa := Real.mul_self_sqrt hA
+  have hbb := Real.mul_self_sqrt hB
+  set a := Real.sqrt A
+  set b := Real.sqrt B
+  have h2 : (two : ℝ) = 2 := by unfold two; norm_num
+  rw [h2, ← haa, ← hbb]
+  have hab : 0 ≤ a * b := mul_nonneg ha hb
+  constructor
+  · rintro ⟨he, h4⟩
+    have h4' : (2 * (a * b)) * (2 * (a * b)) <
+        (D - a * a - b * b) * (D - a * a - b * b) := by nlinarith
+    have := lt_of_mul_self_lt_mul_self₀ he.le h4'
+    nlinarith
+  · intro h
+    have he : 2 * (a * b) < D - a * a - b * b := by nlinarith
+    refine ⟨by linarith, ?_⟩
+    have := mul_self_lt_mul_self (by positivity) he
+    nlinarith
+
 end SimVerif.C08
